@@ -259,10 +259,13 @@ F23_SRCS = ["script A { x }\nscript A { y }\n", "script A { x }\nmovement A { wa
             "mapscripts M { MAP_SCRIPT_ON_LOAD { a } MAP_SCRIPT_ON_LOAD { b } }\n",
             'script A { msgbox("a") msgbox("b") }\nscript A_Text { if (flag(F)) { lock } release }\n']
 
+# F25 (found by proving C15d.duplicate_label_statement): one label name written twice in a script body
+F25_SRCS = ["script S { a L: b L: c }\n", "script S {\n a\n L:\n b\n if (flag(FLAG_1)) {\n L(global):\n c\n }\n}\n"]
+
 def gen_C04(rnd, n, tier):
     out = [top_case(rnd, tier, {"optimize": rnd.random() < 0.5}) for _ in range(n)]
     # the recorded finding F23 stays in the stream: equal user names / a map script type used twice
-    for src in F23_SRCS:
+    for src in F23_SRCS + F25_SRCS:
         tg = TopGen(rnd, tier); cfg = base_cfg()
         out.append(Case(compile_line(cfg, src), src, cfg, {"top": tg}))
     # a selected poryswitch case may end in `continue` / `break`: what follows the poryswitch in the
